@@ -1,0 +1,34 @@
+//go:build verif
+// +build verif
+
+package push
+
+// Machine-checked contracts for the push plugin (comment-only file).
+//
+// C19, as far as per-function contracts reach: every accepted message is moved, never copied
+// or dropped, between the places it can be: the cache of its (client, topic), a batch on a
+// responder channel, the poller's return value. Each operation is specified as one step on
+// that view; the interleavings INSIDE message/send/response (several sync.Map / cmap steps
+// with no common lock) are not decided here.
+
+// ---- the per-(client, topic) cache: a sequence ------------------------------------------------
+
+//@ guarded MessageCache.m by l
+
+//@ func (*MessageCache).Append
+//@   prop C19
+//@   nopanic
+//@   requires m != nil
+//@   modifies m.m, m.m[*], ghost.held[addr(m.l)]
+//@   ensures [appended_once_at_the_end] len(m.m) == old(len(m.m)) + 1 && same(m.m[len(m.m) - 1].Data, message.Data) && m.m[len(m.m) - 1].From == message.From
+//@   ensures [earlier_messages_keep_their_place] forall(i, 0, old(len(m.m)), same(m.m[i].Data, old(m.m[i].Data)) && m.m[i].From == old(m.m[i].From))
+//@   ensures [lock_released] ghost.held[addr(m.l)] == 0
+
+//@ func (*MessageCache).Take
+//@   prop C19
+//@   nopanic
+//@   requires m != nil
+//@   modifies m.m, ghost.held[addr(m.l)]
+//@   ensures [hands_over_everything_in_order] arr(result) == old(arr(m.m)) && off(result) == old(off(m.m)) && len(result) == old(len(m.m))
+//@   ensures [nothing_is_kept] len(m.m) == 0 && m.m == nil
+//@   ensures [lock_released] ghost.held[addr(m.l)] == 0
